@@ -1,6 +1,29 @@
 # C17 — t-digest conserves weight, keeps exact extremes and is monotone
-# Mutations confirmed caught (scratch copy of the tree, VERIF_REPO): see the list at the end of this header, filled in
-# after the mutation runs.
+#
+# The Coq model (coq/TDigestDefs.v) is the model of the code WITH the four repairs of /verif/fixes/17_*.patch applied
+# (quantile_weights, weighted_average_clamp, empty_cdf for C17; serialize_header for C09).  Until they are committed in
+# /repo, `./check C17` against /repo is red by design (ASan abort in serialize(header>0), correspondence mismatches in
+# get_quantile / get_CDF); `VERIF_REPO=<worktree with the patches> ./check C17` is green.
+#
+# Mutation testing (2026-10-01, scratch worktree /tmp/wt_tdigest = /repo 5fd71d3 + the four patches, VERIF_SEED=1 quick):
+#  caught (VIOLATION printed):
+#   M1  update() forgets `min_ = std::min(min_, value)`                          -> min_exact, rank_above_max, rank_cdf_disagree
+#   M2  merge(other) adds other.centroids_weight_ instead of get_total_weight()  -> total_weight, rank_range, rank_not_monotone
+#   M3  greedy loop never advances weight_so_far                                  -> correspondence (centroid lists differ)
+#   M4  get_rank: `value >= max_` returns 1                                       -> correspondence (rank(max))
+#   M5  centroid::add updates the mean before the weight                          -> correspondence
+#   M7  reverse_merge_ never toggled                                              -> correspondence
+#   M8  get_rank: `weight_delta -= lower weight / 2` dropped                      -> pmf_negative, rank_not_monotone
+#   M9  get_quantile: right singleton test `<` instead of `<=`                    -> quantile_range (NaN = 0/0), correspondence
+#   M10 merge: size limit uses q0 only (drops the min with q2)                    -> correspondence, quantile_range
+#   M11 get_PMF loop stops one short                                              -> pmf_sum, pmf_vs_cdf, correspondence
+#   M12 deserialize(bytes): weight of a single-value image is 0                   -> total_weight
+#   M13 interpolation weights swapped back (= the defect as found)                -> correspondence (+ quantile_not_monotone)
+#  equivalent mutant, not reported (correct): M6 get_quantile segment test `>=` instead of `>` (the interpolation is
+#   continuous at the centre of a centroid, both branches return mean[i+1] there)
+#  harmless rewrites tolerated (exit 0): H1 tmp.reserve(...) removed in compress(); H2 update() tests NaN by
+#   `value != value`, sets max_ before min_ and pushes last; H3 merge() clears the buffer before toggling reverse_merge_.
+#  The tdigest unit tests (tdigest_test, 9820 assertions) pass with the four patches applied.
 import struct, math
 PROP = "C17"
 READY = True
@@ -9,9 +32,11 @@ RULE = ('operation scripts over up to four tdigest<double> registers: k in {10,2
         'value streams sorted / reversed / uniform / gaussian / clustered / constant / few-distinct / integer / wide-magnitude / '
         'adjacent-doubles, NaN mixed in (ignored), at most one +inf and one -inf per case, update batches sized around the buffer '
         'capacity 4*(2k+fudge) so that automatic compressions happen at varying points, interleaved get_rank / get_quantile / '
-        'get_CDF / get_PMF / compress / serialize+deserialize (bytes and stream, with and without buffer) into another register '
+        'get_CDF / get_PMF / compress / serialize+deserialize (bytes, bytes behind a header of 3/8/24 bytes, stream; with and '
+        'without buffer) into another register '
         'that is then updated further, merges (trees, self merge, empty operands, different k), queries on empty digests, '
-        'final dense sorted rank grids and rank->quantile grids per register; non-trivial = at least one automatic or forced '
+        'final dense sorted rank grids and rank->quantile grids per register (ranks j/2n that put the target weight exactly on '
+        'centres of centroids and singleton half-widths included); non-trivial = at least one automatic or forced '
         'compression of more than 2 values and at least one rank or quantile grid')
 TRUSTED = ['std::log is not modelled: the extracted binary64 model receives the C library logarithm from its OCaml runner '
            '(same libm as the C++ process); the theorems hold for an arbitrary function in its place',
@@ -22,11 +47,17 @@ ASSUMPTIONS = ['rank/quantile/CDF/PMF predicates are evaluated only on digests w
                'finite values"); with an infinity in the stream the interpolation next to it is inf/inf = NaN; weight, min, max and '
                'the bit-exact correspondence are still checked there',
                'theorems are over exact rational arithmetic (instance qops) with stand-ins pinf/ninf for the infinities that bound every '
-               'streamed value; the binary64 instance is tied to the code by bit-exact replay only',
+               'streamed value, and for an arbitrary function in place of log; the binary64 instance is tied to the code by bit-exact '
+               'replay only. Consequence seen on the code: get_quantile is monotone over Q (C17_quantile_monotone) but in binary64 it '
+               'can decrease by one ulp between centroids a few ulps apart (known finding quantile_monotone_rounding, not repaired: '
+               'a monotone floating-point interpolation is numerically delicate)',
+               'the model is the code with fixes/17_quantile_weights, 17_weighted_average_clamp, 17_empty_cdf (and 17_serialize_header '
+               'for the harness op with header bytes) applied; the behaviour as found is refuted in coq/Regression_tdigest.v',
                'weights stay below 2^53 (no uint64 wrap-around, exact conversion to double)',
                'streams with two or more infinities of the same sign are not generated: merging them makes NaN means '
                '(inf - inf), after which std::stable_sort has no specified result; the property text speaks of finite values',
                'values with magnitude above 1e100 are not generated (mean updates could overflow)',
+               'a case whose oracle reports a known finding is not compared further by lib/vlib.py (about 3-6 of 70 quick cases)',
                'NOT claimed: bound on the number of centroids, accuracy of rank estimates (need real analysis of log)']
 
 NAN = 0x7ff8000000000000
@@ -97,11 +128,20 @@ def grid_values(rng, vals, m):
                 g.append(b2d(b + rng.choice([-1, 1])))
     return sorted(set(x for x in g if not math.isnan(x) and not math.isinf(x)))
 
-def rank_grid(rng, m):
+def rank_grid(rng, m, n=0):
     g = [0.0, 1.0, 0.5, 1e-9, 1 - 1e-9, 0.25, 0.75]
     g += [rng.random() for _ in range(m)]
     g += [i / float(m) for i in range(m + 1)]
-    return sorted(set(g))
+    if n > 1:
+        # target weights that are exact integers / half-integers (centres of centroids, singleton half-widths: the case
+        # splits of the interpolation loop); no 1-ulp neighbours: they only multiply the known ulp-level rounding finding,
+        # and a case that reports a known finding is not compared any further
+        for _ in range(m):
+            j = rng.randrange(0, 2 * n + 1)
+            q = j / (2.0 * n)
+            g.append(q)
+        g += [1.0 / n, (n - 1.0) / n, 0.5 / n, 1.5 / n, (n - 1.5) / n if n > 2 else 0.5]
+    return sorted(set(x for x in g if 0.0 <= x <= 1.0))
 
 def gen(rng, tier):
     ncases = 70 if tier == 'quick' else 900
@@ -157,7 +197,11 @@ def gen(rng, tier):
                 tags.add(kind)
             elif x < 0.65:
                 r2 = rng.randrange(nreg)
-                ops.append([4, r, r2]); allvals[r] = allvals[r] + allvals[r2]; tags.add('merge')
+                both = allvals[r] + allvals[r2]
+                if both.count(math.inf) > 1 or both.count(-math.inf) > 1:
+                    # a (self-)merge would put two infinities of one sign into one digest: NaN means (see ASSUMPTIONS)
+                    ops.append([10, r]); continue
+                ops.append([4, r, r2]); allvals[r] = both; tags.add('merge')
                 if r == r2: tags.add('self-merge')
                 ncomp += 1
             elif x < 0.75:
@@ -193,7 +237,7 @@ def gen(rng, tier):
                 g = grid_values(rng, vals, 40 if tier == 'quick' else 80)
                 for v in g: ops.append([6, r, d2b(v)])
                 ops.append([8, r] + [d2b(v) for v in g[::3]]); ops.append([9, r] + [d2b(v) for v in g[::3]])
-                for q in rank_grid(rng, 30 if tier == 'quick' else 60): ops.append([7, r, d2b(q)])
+                for q in rank_grid(rng, 30 if tier == 'quick' else 60, len([x for x in vals if not math.isnan(x)])): ops.append([7, r, d2b(q)])
                 ops.append([11, r]); ngrid += 1
         if ncomp and ngrid:
             tags.add('k%d' % kmain)
@@ -216,6 +260,7 @@ def oracle(case, irecs, mrecs):
     quants = {}    # (reg, ver) -> list of (rank, value, op)
     cdfs = {}      # (reg, ver, points) -> cdf list
     gtat = {}      # (reg, ver) -> ground truth at that version
+    kreg = {}      # reg -> k
     def bump(r):
         nextver[0] += 1; ver[r] = nextver[0]; gtat[(r, ver[r])] = list(gt[r])
     for i, op in enumerate(case['ops']):
@@ -225,7 +270,7 @@ def oracle(case, irecs, mrecs):
         code = op[0]
         if code == 1:
             if R == [1]:
-                gt[op[1]] = [0, math.inf, -math.inf]; bump(op[1])
+                gt[op[1]] = [0, math.inf, -math.inf]; bump(op[1]); kreg[op[1]] = op[2]
             continue
         if len(op) < 2 or op[1] not in gt:
             continue
@@ -241,7 +286,7 @@ def oracle(case, irecs, mrecs):
             gt[r] = [g[0] + h[0], min(g[1], h[1]), max(g[2], h[2])]; bump(r)
         elif code == 12 and len(op) > 3:
             if R == [1]:
-                gt[op[2]] = list(g); bump(op[2])
+                gt[op[2]] = list(g); bump(op[2]); kreg[op[2]] = kreg.get(r)
         elif code == 5:
             if R == [-1]:
                 fail('info_refused', 'is_empty/get_total_weight refused', i); continue
@@ -261,6 +306,12 @@ def oracle(case, irecs, mrecs):
             if S:
                 if S[0] != g[0] or (len(S) >= 3 and g[0] > 0 and (b2d(S[1]) != g[1] or b2d(S[2]) != g[2])):
                     fail('spec_ghost_disagree', 'model ghost %r vs script ground truth %r' % (S, g), i)
+        elif code == 11:
+            # "the number of centroids stays bounded by a small multiple of k": not proved (needs analysis of log); observed bound =
+            # the capacity the code itself reserves, 2k + (k < 30 ? 30 : 10)
+            k = kreg.get(r)
+            if k and R and R != [-1] and g[0] > 1 and R[0] > 2 * k + (30 if k < 30 else 10):
+                fail('centroid_count', '%d centroids with k = %d exceed the reserved capacity' % (R[0], k), i)
         elif code == 6 and len(op) > 2:
             v = b2d(op[2])
             if g[0] == 0:
@@ -361,13 +412,20 @@ FAMILIES = [dict(name='tdigest', harness='drv_tdigest.cpp', extract='Extract_tdi
                  cxx_flags='-ffp-contract=off', gen=gen, oracle=oracle)]
 
 MANIFEST = dict(
-    level_text=('Theorems (coq/Properties_C17.v) about an executable model of tdigest<double> written over an abstract number structure: '
-                'weight conservation for ANY number structure (hence also for binary64, NaN and infinities included); over exact rationals and '
-                'for any normaliser function: exact min/max, sorted centroids, first/last centroid are singletons holding min/max after any '
-                'update/merge/compress/query/serialize history, rank range and monotonicity, quantile range and end points, CDF/PMF = rank. '
-                'The binary64 instance of the same model is replayed bit for bit against the C++ (ranks, quantiles, CDF/PMF, min/max, weight, '
-                'centroid list and buffer from the serialized image) and the property predicates are evaluated on the implementation outputs.'),
+    level_text=('PROVED in Coq for ALL histories (coq/Properties_C17.v, 21 theorems and corollaries; reachable = any sequence of new / update / merge of '
+                'reachable digests / compress / get_rank / get_quantile / get_CDF / get_PMF / serialize / deserialize) about the executable '
+                'model of tdigest<double> that is extracted and run against the code: for ANY number structure (binary64 with NaN and '
+                'infinities included) total weight = number of accepted values and centroids_weight_ = sum of centroid weights; over exact '
+                'rationals, for any normaliser function: is_empty, min/max are the exact extremes, centroids sorted with positive weights, '
+                'first and last centroid are singletons holding min and max (so the tail formulas of get_rank/get_quantile cannot execute), '
+                'get_quantile within [min,max], non-decreasing in the rank, quantile(0)=min, quantile(1)=max, get_rank within [0,1], 0 below '
+                'min, 1 above max, non-decreasing in the value (through the specification of both binary searches), get_CDF = get_rank per '
+                'split point followed by 1, get_PMF = differences of get_CDF summing to 1. COMPARED on every run (not proved): the binary64 '
+                'instance of the same model against the C++ bit for bit (ranks, quantiles, CDF/PMF, min/max, weight, centroid list and '
+                'buffer read from the serialized image, round trips through bytes / bytes behind a header / streams), and the property '
+                'predicates evaluated on the implementation outputs (dense grids). NOT claimed: centroid-count bound, rank accuracy; '
+                'binary64 monotonicity of get_quantile holds only up to the known one-ulp rounding finding.'),
     level_note=('Trusted: Coq kernel; hand-written model validated by the correspondence runs only; libm log passed in by the runner; '
-                'stable sort / binary search modelled by equivalent algorithms; theorems over exact arithmetic (binary64 only by replay); '
-                'centroid-count bound and accuracy not claimed.'),
+                'stable sort / binary search modelled by equivalent algorithms; theorems over exact arithmetic (binary64 only by replay). '
+                'The model is the code with fixes/17_*.patch applied; the defects as found are theorems in coq/Regression_tdigest.v.'),
     design_ref='DESIGN.md section 5 C17')
